@@ -524,7 +524,13 @@ def c14_lines(ctx):
     from rules.c18 import c18_3
     c18_3(ctx)
 
-RULES = [c14_1, c14_2, c14_3, c14_4, c14_5, c14_lines]
+def c14_scopes(ctx):
+    """A reference the scope rules cannot resolve must end the run: the scope tree has the reviewed shape (C06.2), so nothing becomes resolvable by accident."""
+    from rules.c06 import c06_2
+    c06_2(ctx)
+
+
+RULES = [c14_1, c14_2, c14_3, c14_4, c14_5, c14_lines, c14_scopes]
 
 _E = 'assembler/engine.py'
 _F = 'assembler/line_object/factory.py'
